@@ -143,7 +143,7 @@ def run(
     _counter[0] += 1
     meta = os.path.join(scratch(), f"tlc-{_counter[0]}")
     os.makedirs(meta, exist_ok=True)
-    java = ["java", "-XX:+UseParallelGC", f"-Xmx{heap}", f"-DTLA-Library={LIB}"]
+    java = ["java", "-XX:+UseParallelGC", f"-Xmx{heap}", "-Xss64m", f"-DTLA-Library={LIB}"]
     if dfs:
         java.append("-Dtlc2.tool.queue.IStateQueue=StateDeque")
     cmd = java + ["-cp", f"{JAR}:{DEPS}", "tlc2.TLC", "-metadir", meta, "-noGenerateSpecTE", "-config", cfg]
@@ -221,6 +221,11 @@ def tv(spec_dir, module, traces, cfg=None, *, env=None, timeout=900, heap="4g", 
         raise Machinery(f"trace spec {module} reported {r.violated}:\n" + "\n".join(r.out.splitlines()[-40:]))
     if "Finished in" not in r.out:
         raise Machinery(f"trace validation {module} did not finish:\n" + "\n".join(r.out.splitlines()[-40:]))
+    # an aborted batch (e.g. a Java StackOverflowError) prints no REJ lines: without these two tests it would read as "all accepted"
+    if "Model checking completed. No error has been found." not in r.out or r.errors:
+        raise Machinery(f"trace validation {module} was aborted by TLC:\n" + "\n".join((r.errors or r.out.splitlines())[-20:]))
+    if r.distinct < len(traces):
+        raise Machinery(f"trace validation {module}: only {r.distinct} states for {len(traces)} traces")
     rej = {}
     for v in r.tuples("REJ"):
         rej[v[0]] = tuple(v[1:])
